@@ -196,6 +196,12 @@ type lfEngine struct {
 	// bits mode (engine E2)
 	bits     bool
 	recvObj  int                    // object id of the entry function's receiver
+	// tracked: objects whose fields are tracked by name: the receiver ("" prefix) and, when
+	// paramNames is set, pointer-to-struct parameters (prefix "<name>.")
+	arrOrg     map[string]int // local/field array → identity of its slices
+	paramSyms  map[int]Sym    // integer parameters of the entry function → their symbols
+	tracked    map[int]string
+	paramNames map[int]string // parameter index → name under which its fields are tracked
 	onStore  func(st *lfState, kind, name string, val string, pos token.Pos, b *bv)
 	onReturn func(st *lfState, rets []lfVal)
 	bufSeq   int
@@ -650,6 +656,10 @@ func (e *lfEngine) normalise(st *lfState, x Lin, t types.Type, name string) Lin 
 	if entails(st.cons, geq(x, linConst(lo))) && entails(st.cons, leq(x, linConst(hi))) {
 		return x
 	}
+	if e.bits {
+		// canonical name: what wraps, not how the source spells it
+		name = fmt.Sprintf("wrap%d(%s)", typeBits(t), e.linString(x))
+	}
 	return e.fresh(st, t, name).(vInt).E
 }
 
@@ -921,6 +931,17 @@ func (e *lfEngine) runEntry(fn *ssa.Function, setup func(fr *lfFrame, st *lfStat
 		if e.bits {
 			if pv, ok := v.(vPtr); ok && i == 0 && fn.Signature.Recv() != nil {
 				e.recvObj = pv.Obj
+				if e.tracked == nil {
+					e.tracked = map[int]string{}
+				}
+				e.tracked[pv.Obj] = ""
+			} else if pv, ok := v.(vPtr); ok {
+				if n, has := e.paramNames[i]; has {
+					if e.tracked == nil {
+						e.tracked = map[int]string{}
+					}
+					e.tracked[pv.Obj] = n + "."
+				}
 			}
 			if sv, ok := v.(vSlice); ok {
 				if sl, ok := p.Type().Underlying().(*types.Slice); ok {
@@ -932,6 +953,14 @@ func (e *lfEngine) runEntry(fn *ssa.Function, setup func(fr *lfFrame, st *lfStat
 			}
 		}
 		fr.env[p] = v
+		if iv, ok := v.(vInt); ok && len(iv.E.T) == 1 && iv.E.C == 0 {
+			for sy := range iv.E.T {
+				if e.paramSyms == nil {
+					e.paramSyms = map[int]Sym{}
+				}
+				e.paramSyms[i] = sy
+			}
+		}
 	}
 	if setup != nil {
 		setup(fr, st)
@@ -1311,8 +1340,8 @@ func (e *lfEngine) step(fr *lfFrame, st *lfState, in ssa.Instruction) {
 			sv := e.val(fr, st, x.Val)
 			st.heap[key] = sv
 			if e.bits && e.emitting() {
-				if p.Obj == e.recvObj && e.recvObj != 0 && p.Path != "" {
-					e.onStore(st, "field", strings.TrimPrefix(p.Path, "."), e.renderVal(sv), x.Pos(), e.bitsOfVal(sv, typeBits(x.Val.Type())))
+				if pfx, isT := e.tracked[p.Obj]; isT && p.Path != "" {
+					e.onStore(st, "field", pfx+strings.TrimPrefix(p.Path, "."), e.renderVal(sv), x.Pos(), e.bitsOfVal(sv, typeBits(x.Val.Type())))
 				} else if p.Elem != nil && p.Elem.Org.Name != "d" {
 					if k, isK := p.Elem.Idx.isConst(); isK {
 						e.onStore(st, "wire", fmt.Sprintf("%s[%d]", p.Elem.Org.Name, k), e.renderVal(sv), x.Pos(), e.bitsOfVal(sv, 8))
@@ -1492,9 +1521,19 @@ func (e *lfEngine) doSlice(fr *lfFrame, st *lfState, x *ssa.Slice) {
 		out.Org = &sliceOrg{ID: sv.Org.ID, Name: sv.Org.Name, Off: sv.Org.Off.add(lo, 1)}
 	} else if bp, ok := base.(vPtr); ok && e.bits {
 		// slice of a (field or local) array: identity by object/path
-		out.Org = &sliceOrg{ID: e.id(), Name: "arr:" + fmt.Sprint(bp.Obj) + bp.Path, Off: lo}
-		if bp.Obj == e.recvObj && e.recvObj != 0 {
-			out.Org.Name = "f:" + strings.TrimPrefix(bp.Path, ".")
+		// one identity per array, however many times it is sliced
+		akey := fmt.Sprint(bp.Obj) + bp.Path
+		if e.arrOrg == nil {
+			e.arrOrg = map[string]int{}
+		}
+		aid, has := e.arrOrg[akey]
+		if !has {
+			aid = e.id()
+			e.arrOrg[akey] = aid
+		}
+		out.Org = &sliceOrg{ID: aid, Name: "arr:" + akey, Off: lo}
+		if pfx, isT := e.tracked[bp.Obj]; isT {
+			out.Org.Name = "f:" + pfx + strings.TrimPrefix(bp.Path, ".")
 		}
 	}
 	fr.env[x] = out
@@ -1589,8 +1628,8 @@ func (e *lfEngine) doUnOp(fr *lfFrame, st *lfState, x *ssa.UnOp) {
 							st.heap[key] = v
 						}
 					}
-				} else if p.Obj == e.recvObj && e.recvObj != 0 && p.Path != "" && !strings.Contains(p.Path, "[") {
-					name := strings.TrimPrefix(p.Path, ".")
+				} else if pfx, isT := e.tracked[p.Obj]; isT && p.Path != "" && !strings.Contains(p.Path, "[") {
+					name := pfx + strings.TrimPrefix(p.Path, ".")
 					switch y := v.(type) {
 					case vInt:
 						if w := typeBits(x.Type()); w > 0 {
@@ -1610,6 +1649,16 @@ func (e *lfEngine) doUnOp(fr *lfFrame, st *lfState, x *ssa.UnOp) {
 							e.boolName = map[int]string{}
 						}
 						e.boolName[y.ID] = name
+					case vSlice:
+						// a string or slice field: its length is named after the field, not after
+						// the variable the code happens to reach it through
+						if len(y.Len.T) == 1 && y.Len.C == 0 {
+							for sy := range y.Len.T {
+								if int(sy) < len(e.symNames) {
+									e.symNames[sy] = "len(f:" + name + ")"
+								}
+							}
+						}
 					}
 				}
 			}
